@@ -625,7 +625,7 @@ impl Model {
             integ
         );
         // another writer stored the pool's next value by address while this one was open
-        if s.aged_hours > 0 && s.streamed() {
+        if s.aged_hours != 0 && s.streamed() {
             let o = (Algo::Sha256, blob::hexs(&blob::digest_raw(Algo::Sha256, &other)));
             self.adopt_content(ctx, &o);
         }
@@ -830,10 +830,27 @@ impl Model {
         out: &Out,
     ) -> Result<(), String> {
         let what = format!("extract({kind:?}, checked={checked}, {by:?}, dest={dest:?})");
-        let pre = match dest {
-            Dest::Absent | Dest::OtherFs | Dest::LongName | Dest::WithSiblings => DestState::Absent,
+        let mut pre = match dest {
+            Dest::Absent | Dest::OtherFs | Dest::LongName | Dest::WithSiblings | Dest::LinkOfContent => DestState::Absent,
             Dest::Existing => DestState::File(PREEXISTING.len() as u64, sha256_hex(PREEXISTING)),
         };
+        // a destination that is a hard link of the content file held the content's bytes
+        let mut dest = dest;
+        if dest == Dest::LinkOfContent {
+            let a = match by {
+                By::Key(k) => self.entry(ctx.key(k)).and_then(|e| blob::sri_address(&e.integrity)),
+                By::Addr(a) => Some(Self::addr_of(ctx, a)),
+            };
+            match a.and_then(|a| self.content.get(&a)) {
+                Some(CState::Data { bytes, symlink: false }) => {
+                    pre = DestState::File(bytes.len() as u64, sha256_hex(bytes));
+                    // for what is expected, it is an existing destination
+                    dest = Dest::Existing;
+                }
+                _ => dest = Dest::Absent,
+            }
+        }
+        let pre = pre;
         let dest_untouched = |d: &DestState| *d == pre || *d == DestState::Absent;
         let addr = match by {
             By::Key(k) => match self.entry(ctx.key(k)) {
